@@ -167,6 +167,8 @@ def _conform_filename(
         print("modified", filename, sep="\t")
         return filename, True
 
+    with open(filename, "rb") as f:
+        original_bytes = f.read()
     with open(filename, "rt") as f:
         original_source = f.read()
     parsed_ast = ast_parse(original_source, filename=filename)
@@ -201,8 +203,8 @@ def _conform_filename(
         if rewrite_at_query.replaced:
             emit.file(parsed_ast, filename, mode="wt", skip_black=False)
             # Report what happened to the file, not what happened to the tree
-            with open(filename, "rt") as f:
-                replaced = f.read() != original_source
+            with open(filename, "rb") as f:
+                replaced = f.read() != original_bytes
         print("modified" if replaced else "unchanged", filename, sep="\t")
 
     return filename, replaced
